@@ -216,8 +216,22 @@ def chain(ctx, rule):
         ok = [unparse(a) for a in j.value.args] == ["base_url", var] and isinstance(j.targets[0], ast.Name) and j.targets[0].id == var
         ctx.ob(rule, "urljoin(base_url, href)", ok, "links_from_html resolves with `%s`" % unparse(j.value), lm.site(j))
         guard = _enclosing_tests(fn, j)
-        ok = any(src(t) == "notPROTOCOL_RE.match(%s)" % var and pol for t, pol in guard)
-        ctx.ob(rule, "urljoin-only-without-protocol", ok, "links_from_html joins hrefs with the base under `%s`" % " and ".join(unparse(t) for t, p in guard), lm.site(j))
+        # the guard, interpreted on href classes: relative and protocol-relative hrefs are joined, absolute ones are not
+        from ..microeval import _Interp
+        classes = [("/x", True), ("x.html", True), ("?q=1", True), ("//other.fr/x", True), ("http://a.fr/x", False), ("HTTPS://a.fr", False), ("ftp://a.fr", False)]
+        for href, want in classes:
+            try:
+                got = True
+                for t, pol in guard:
+                    v = bool(_Interp(repo, lm, {var: href}, 0).expr(t))
+                    if v != pol:
+                        got = False
+            except Unknown as e:
+                ctx.undecided(rule, "urljoin guard not interpretable: %s" % e)
+                break
+            ctx.ob(rule, "urljoin-guard/%s" % href, got == want,
+                   "links_from_html %s the href %r with the base url (guard `%s`)%s" % ("does not join" if want else "joins", href, " and ".join(unparse(t) for t, p in guard), ": a protocol-relative href is dropped instead of being resolved" if href.startswith("//") else ""),
+                   lm.site(j), witness='<a href="%s">' % href)
     # canonicalisation: sibling call sites agree on options
     canon = [c for c in ast.walk(fn) if isinstance(c, ast.Call) and isinstance(c.func, ast.Name) and c.func.id == "canonicalize_url"]
     ctx.ob(rule, "canonicalize/two-sites", len(canon) == 2, "links_from_html canonicalises at %d sites (base url and link expected)" % len(canon), site)
